@@ -1,1 +1,99 @@
-// harnesses for module m_delete (included into /repo under cfg(kani))
+// C10: -delete removes the entry itself with the right system call and reports failure.
+use super::*;
+use crate::find::matchers::entry::verif_kani::*;
+use crate::find::matchers::Follow;
+use std::path::Path;
+
+static mut RMDIR: usize = 0;
+static mut UNLINK: usize = 0;
+static mut FAIL: bool = false;
+static mut ARG_OK: bool = true;
+fn note_path(p: &Path) { unsafe { if p.as_os_str().as_encoded_bytes() != b"a" { ARG_OK = false; } } }
+fn rmdir_stub<P: AsRef<Path>>(p: P) -> io::Result<()> { note_path(p.as_ref()); unsafe { RMDIR += 1; if FAIL { Err(io::Error::from_raw_os_error(libc::ENOTEMPTY)) } else { Ok(()) } } }
+fn unlink_stub<P: AsRef<Path>>(p: P) -> io::Result<()> { note_path(p.as_ref()); unsafe { UNLINK += 1; if FAIL { Err(io::Error::from_raw_os_error(libc::EACCES)) } else { Ok(()) } } }
+
+// @harness props=C10 tier=quick cost=300 flags=nomem
+// @exec DeleteMatcher::{matches,delete,has_side_effects}, WalkEntry::{file_type,path_is_symlink,metadata,path}, MatcherIO::set_exit_code
+// @sym world (every file type; links to dirs/files; dangling), follow P/H/L, depth 0..1, removal fails or not
+// @bounds one entry named "a"; depth <= 1
+// @assume kernel contract for stat vs lstat; remove_dir/remove_file replaced by recorders with a symbolic outcome
+// @replay delete_decision
+/// Exactly one removal call on the entry's own path; rmdir iff the entry itself (lstat) is a directory, so a symbolic
+/// link is unlinked, never its target; failure => false and exit status 1; success => true; -delete is an action.
+#[kani::proof]
+#[kani::unwind(3)]
+#[kani::stub(alloc::fmt::format, fmt_stub)]
+#[kani::stub(<std::io::Stderr as std::io::Write>::write_fmt, wf_stub)]
+#[kani::stub(std::fs::metadata, stat_stub)]
+#[kani::stub(std::fs::symlink_metadata, lstat_stub)]
+#[kani::stub(std::fs::remove_dir, rmdir_stub)]
+#[kani::stub(std::fs::remove_file, unlink_stub)]
+fn c10_delete_decision() {
+    let (lst, sst, s_ok, _s_err) = any_world(&[libc::ENOENT]);
+    unsafe { RMDIR = 0; UNLINK = 0; FAIL = kani::any(); ARG_OK = true; }
+    let follow = any_follow();
+    let depth: usize = kani::any();
+    kani::assume(depth <= 1);
+    let entry = WalkEntry::new("a", depth, follow);
+    let deps = Deps::new();
+    let mut io = MatcherIO::new(&deps);
+    let m = DeleteMatcher::new();
+    assert!(m.has_side_effects());
+    let got = m.matches(&entry, &mut io);
+    unsafe {
+        assert!(RMDIR + UNLINK == 1);
+        assert!(ARG_OK);
+        assert!((RMDIR == 1) == is_type(lst.st_mode, libc::S_IFDIR));
+        assert!(got == !FAIL);
+        assert!((io.exit_code() == 1) == FAIL);
+        assert!(io.exit_code() == 0 || io.exit_code() == 1);
+        kani::cover!(UNLINK == 1 && is_type(lst.st_mode, libc::S_IFLNK) && s_ok && is_type(sst.st_mode, libc::S_IFDIR) && follow == Follow::Always);
+        kani::cover!(RMDIR == 1 && FAIL);
+        kani::cover!(UNLINK == 1 && follow == Follow::Roots && depth == 0 && is_type(lst.st_mode, libc::S_IFLNK));
+    }
+    std::mem::forget(entry);
+}
+#[kani::proof]
+#[kani::unwind(3)]
+#[kani::stub(alloc::fmt::format, fmt_stub)]
+#[kani::stub(<std::io::Stderr as std::io::Write>::write_fmt, wf_stub)]
+#[kani::stub(std::fs::metadata, stat_stub)]
+#[kani::stub(std::fs::symlink_metadata, lstat_stub)]
+#[kani::stub(std::fs::remove_dir, rmdir_stub)]
+#[kani::stub(std::fs::remove_file, unlink_stub)]
+fn c10_delete_decision_canary() {
+    let (_lst, sst, s_ok, _s_err) = any_world(&[libc::ENOENT]);
+    unsafe { RMDIR = 0; UNLINK = 0; FAIL = false; ARG_OK = true; }
+    let entry = WalkEntry::new("a", 0, Follow::Always);
+    let deps = Deps::new();
+    let mut io = MatcherIO::new(&deps);
+    DeleteMatcher::new().matches(&entry, &mut io);
+    // wrong on purpose: "rmdir iff the followed record is a directory" (would remove through links)
+    unsafe { if s_ok { assert!((RMDIR == 1) == is_type(sst.st_mode, libc::S_IFDIR)); } }
+    std::mem::forget(entry);
+}
+
+// @harness props=C10 tier=quick cost=30 flags=nomem
+// @exec DeleteMatcher::matches on the path "."
+// @sym removal outcome
+// @bounds path "."
+/// "." is never removed (rmdir(".") is EINVAL); the action is still true.
+#[kani::proof]
+#[kani::unwind(3)]
+#[kani::stub(alloc::fmt::format, fmt_stub)]
+#[kani::stub(<std::io::Stderr as std::io::Write>::write_fmt, wf_stub)]
+#[kani::stub(std::fs::metadata, stat_stub)]
+#[kani::stub(std::fs::symlink_metadata, lstat_stub)]
+#[kani::stub(std::fs::remove_dir, rmdir_stub)]
+#[kani::stub(std::fs::remove_file, unlink_stub)]
+fn c10_delete_dot() {
+    let (_lst, _sst, _s_ok, _s_err) = any_world(&[libc::ENOENT]);
+    unsafe { RMDIR = 0; UNLINK = 0; FAIL = kani::any(); }
+    let entry = WalkEntry::new(".", 0, any_follow());
+    let deps = Deps::new();
+    let mut io = MatcherIO::new(&deps);
+    assert!(DeleteMatcher::new().matches(&entry, &mut io));
+    unsafe { assert!(RMDIR + UNLINK == 0); kani::cover!(FAIL); }
+    assert!(io.exit_code() == 0);
+    std::mem::forget(entry);
+}
